@@ -12,7 +12,7 @@ def run(pid, tier):
     sd = seed()
     wd = workdir(pid, 'traces')
     tr = wd / 'kolm.ndjson'
-    r = tlc('MCKolmogorov', 'MCKolmogorov.cfg', pid, 'cases', workers=1, timeout=600, heap='2g',
+    r = tlc('MCKolmogorov', 'MCKolmogorov.cfg', pid, 'cases', workers=1, timeout=1800, heap='2g', env={'TIER': tier},
             pipe_to=[str(RDV), 'quant-drive', '--seed', str(sd), '--only-ft', 'f32', '--out', str(tr)])
     require_ok(r, 'MCKolmogorov')
     s = json.loads(r.consumer_out.strip().splitlines()[-1])
@@ -21,7 +21,7 @@ def run(pid, tier):
     o.add_tlc(r, 'MCKolmogorov: table sanity (ASSUME KTableOK) and case generation')
     o.extra['drive'] = s
     o.evaluations = s['calls']
-    rr = tlc('TraceKolmogorov', 'TraceKolmogorov.cfg', pid, 'trace', trace_mode=True, env={'TRACE': tr}, timeout=1200, heap='4g')
+    rr = tlc('TraceKolmogorov', 'TraceKolmogorov.cfg', pid, 'trace', trace_mode=True, env={'TRACE': tr, 'TIER': tier}, timeout=1200, heap='4g')
     require_ok(rr, 'TraceKolmogorov')
     if rr.rejected or rr.violated:
         raise ToolError('kolmogorov trace not consumed: %s' % (rr.rejected or rr.violated))
